@@ -416,8 +416,8 @@ def k3(rep, M):
 
 
 # ---------------------------------------------------------------- K2 C++ parser event sequence equals the Python one
-EV_PY = re.compile(r"self\.state = (\d+)|self\.match\(blackbirdParser\.(\w+)\)|adaptivePredict\(self\._input,\s*(\d+),|self\.precpred\(self\._ctx, (\d+)\)|self\.(\w+)\((\d*)\)|blackbirdParser\.([A-Z][A-Z_0-9]*)\b")
-EV_CPP = re.compile(r"setState\((\d+)\)|match\(blackbirdParser::(\w+)\)|adaptivePredict\(_input, (\d+),|precpred\(_ctx, (\d+)\)|(?<![\w:>.])(\w+)\((\d*)\);|blackbirdParser::([A-Z][A-Z_0-9]*)\b")
+EV_PY = re.compile(r"self\.state = (\d+)|self\.match\(blackbirdParser\.(\w+)\)|adaptivePredict\(self\._input,\s*(\d+),|self\.precpred\(self\._ctx, (\d+)\)|self\.(\w+)\((\d*)\)|blackbirdParser\.([A-Z][A-Z_0-9]*)\b|\bla_\s*==\s*(\d+)|\b_alt\s*([!=]=)\s*(\d+)|\b(and|or|not)\b")
+EV_CPP = re.compile(r"setState\((\d+)\)|match\(blackbirdParser::(\w+)\)|adaptivePredict\(_input, (\d+),|precpred\(_ctx, (\d+)\)|(?<![\w:>.])(\w+)\((\d*)\);|blackbirdParser::([A-Z][A-Z_0-9]*)\b|\bcase (\d+):|\balt ([!=]=) (\d+)|(&&|\|\||!(?=\())")
 
 
 def _events(rx, text, rule_names, toks):
@@ -429,7 +429,10 @@ def _events(rx, text, rule_names, toks):
         elif m.group(4): ev.append(("precpred", int(m.group(4))))
         elif m.group(5):
             if m.group(5) in rule_names: ev.append(("rule", m.group(5), m.group(6) or ""))
-        elif m.group(7) and m.group(7) in toks: ev.append(("tok", m.group(7)))
+        elif m.group(7):
+            if m.group(7) in toks: ev.append(("tok", m.group(7)))
+        elif m.group(8): ev.append(("alt", int(m.group(8))))
+        elif m.group(9) == "==": ev.append(("alt", int(m.group(10))))
     return ev
 
 
